@@ -51,11 +51,14 @@ impl time {
 }
 
 // ---- id-scrub channel to the driver, with a ghost log of the ids sent
-pub struct ScrubSender { pub log: Ghost<Seq<RequestId>> }
+// `log` = ids that reached the driver's queue, `tried` = every id a send was attempted for (the send fails only when
+// the driver is gone, in which case nothing is left to clean)
+pub struct ScrubSender { pub log: Ghost<Seq<RequestId>>, pub tried: Ghost<Seq<RequestId>> }
 impl ScrubSender {
     #[verifier::external_body]
     pub fn send(&mut self, id: RequestId) -> (r: core::result::Result<(), LdapError>)
-        ensures r is Ok ==> final(self).log@ == old(self).log@.push(id),
+        ensures final(self).tried@ == old(self).tried@.push(id),
+                r is Ok ==> final(self).log@ == old(self).log@.push(id),
                 r matches Err(e) ==> e is IdScrubSend && final(self).log@ == old(self).log@
     { unimplemented!() }
 }
@@ -159,9 +162,9 @@ impl SearchStream {
         old(self).res matches Some(sr) ==> r == sr, //# C10.finish_returns_server_result_when_read_to_end
         old(self).res is None ==> cancelled(r), //# C10.finish_returns_cancelled_88_otherwise
         // E5: finishing before the end tells the driver to forget the id
-        old(self).state != StreamState::Done ==> (final(self).ldap.id_scrub_tx.log@ == old(self).ldap.id_scrub_tx.log@.push(old(self).ldap.last_id)
-            || final(self).ldap.id_scrub_tx.log@ == old(self).ldap.id_scrub_tx.log@), //# C13.E5_early_finish_scrubs_last_id
-        old(self).state == StreamState::Done ==> final(self).ldap.id_scrub_tx.log@ == old(self).ldap.id_scrub_tx.log@, //# C13.no_scrub_after_done
+        // E5: finishing before the end always tells the driver to forget the stream's current id
+        old(self).state != StreamState::Done ==> final(self).ldap.id_scrub_tx.tried@ == old(self).ldap.id_scrub_tx.tried@.push(old(self).ldap.last_id), //# C13.E5_early_finish_scrubs_last_id
+        old(self).state == StreamState::Done ==> final(self).ldap.id_scrub_tx.tried@ == old(self).ldap.id_scrub_tx.tried@, //# C13.no_scrub_after_done
 //@end
 
 //@lift name=start file=src/search.rs impl="impl<'a, S, A> SearchStream<'a, S, A>" fn=start
